@@ -1,6 +1,76 @@
-(* C03 — placeholder replaced below by the real theorems; kept minimal while the correspondence is brought up *)
-From PV Require Import Base.Bytes Tmpl.Value Tmpl.IR Tmpl.Exec Proofs.ExecMono.
-Theorem C03_fuel_monotone : forall defs f f' dot s ns,
-  f <= f' -> fin (exec_nodes defs f dot s ns) -> exec_nodes defs f' dot s ns = exec_nodes defs f dot s ns.
-Proof. exact exec_nodes_mono. Qed.
-Print Assumptions C03_fuel_monotone.
+(* C03 — mixins bind arguments, attributes and block content per call.
+   Property theorems only (about the executor model Tmpl/Exec.v after repair 40255c5, for all programs, states and
+   fuel); proofs are in Proofs/C03Proofs.v. *)
+From PV Require Import Base.Bytes Tmpl.Value Tmpl.IR Tmpl.Runtime Tmpl.Exec Proofs.ExecMono Proofs.C03Proofs.
+
+(* "every call independently … never see another call's arguments or block": whatever a body does — any nesting
+   of calls, blocks, loops, recursion — it changes only the executing frame; every frame below it is untouched. *)
+Theorem C03_frame_discipline : forall defs f dot s ns s',
+  live s -> exec_nodes defs f dot s ns = Ok s' -> below s' = below s /\ live s'.
+Proof. exact exec_nodes_keeps. Qed.
+Print Assumptions C03_frame_discipline.
+
+(* a call (of a mixin or of a block), when it returns, leaves exactly the frames the argument evaluation left:
+   the callee's frame with the parameters, $attributes and $block of THIS call is discarded *)
+Theorem C03_call_isolated : forall defs f dot s name isv arg body newdot s3 s',
+  live s -> template_plan defs dot s name isv arg = Ok (Some (body, newdot, s3)) ->
+  exec_node defs (S f) dot s (NTemplate name isv arg) = Ok s' ->
+  x_frames s' = removelast (x_frames s3).
+Proof. exact call_isolated. Qed.
+Print Assumptions C03_call_isolated.
+
+(* the caller's block bindings (and page data, depth) survive every call: a block may be placed any number of times *)
+Theorem C03_bindings_survive_calls : forall defs f dot s name isv arg s',
+  live s -> exec_node defs (S f) dot s (NTemplate name isv arg) = Ok s' ->
+  f_bound (cur s') = f_bound (cur s) /\ f_globals (cur s') = f_globals (cur s) /\ f_depth (cur s') = f_depth (cur s).
+Proof. exact call_keeps_bindings. Qed.
+Print Assumptions C03_bindings_survive_calls.
+
+(* "A mixin body sees the page data but not the caller's local variables" *)
+Theorem C03_mixin_sees_only_page_data : forall defs dot s name arg body newdot s3,
+  template_plan defs dot s name false arg = Ok (Some (body, newdot, s3)) ->
+  ~ In name (map fst (f_bound (cur s))) ->
+  f_vars (cur s3) = f_globals (cur s) /\ f_globals (cur s3) = f_globals (cur s) /\ f_depth (cur s3) = S (f_depth (cur s)).
+Proof. exact mixin_callee_sees_globals. Qed.
+Print Assumptions C03_mixin_sees_only_page_data.
+
+(* "block content … evaluated with the caller's variables": after __freeze bn by the caller and the call, the
+   lookup of bn in the callee finds the caller's frame (the block runs in a copy of it) *)
+Theorem C03_block_runs_in_callers_frame : forall frames caller_ix caller bn l,
+  nth_error frames caller_ix = Some caller ->
+  find_last_bound (frames ++ [{| f_vars := f_globals caller; f_globals := f_globals caller;
+                                 f_bound := l ++ [(bn, caller_ix)]; f_depth := S (f_depth caller) |}])
+                  (S (f_depth caller)) (l ++ [(bn, caller_ix)]) bn = Some caller_ix.
+Proof. exact block_runs_in_callers_frame. Qed.
+Print Assumptions C03_block_runs_in_callers_frame.
+
+(* repeated, nested and recursive calls: the latest binding made by a frame above the executing one wins; a binding
+   the executing frame (or a deeper one) made for a call of its own is never its block; other names do not matter;
+   and what is found is always a binding of that very name made by a shallower frame *)
+Theorem C03_latest_binding_wins : forall frames depth l bn fr,
+  shallower frames depth fr = true -> find_last_bound frames depth (l ++ [(bn, fr)]) bn = Some fr.
+Proof. exact find_last_bound_app. Qed.
+Print Assumptions C03_latest_binding_wins.
+
+Theorem C03_own_binding_is_not_the_block : forall frames depth l bn fr,
+  shallower frames depth fr = false ->
+  find_last_bound frames depth (l ++ [(bn, fr)]) bn = find_last_bound frames depth l bn.
+Proof. exact find_last_bound_skips. Qed.
+Print Assumptions C03_own_binding_is_not_the_block.
+
+Theorem C03_other_blocks_do_not_interfere : forall frames depth l bn k fr,
+  k <> bn -> find_last_bound frames depth (l ++ [(k, fr)]) bn = find_last_bound frames depth l bn.
+Proof. exact find_last_bound_other. Qed.
+Print Assumptions C03_other_blocks_do_not_interfere.
+
+Theorem C03_block_lookup_sound : forall frames depth l bn fr,
+  find_last_bound frames depth l bn = Some fr -> In (bn, fr) l /\ shallower frames depth fr = true.
+Proof. exact find_last_bound_sound. Qed.
+Print Assumptions C03_block_lookup_sound.
+
+(* arguments are bound positionally; a missing one is null (prints nothing) *)
+Theorem C03_parameters_positional : forall h l items i,
+  hget h l = Some (OArr items) ->
+  rt_tryindex h (VArr l) (VInt (Z.of_nat i)) = Ok (match nth_error items i with Some v => box v | None => VNil end).
+Proof. exact param_binding. Qed.
+Print Assumptions C03_parameters_positional.
